@@ -79,6 +79,7 @@ def model_skeletons() -> dict[str, dict]:
             "IntEnum": {"type": "integer", "enum": [-4, 0, 2]},
             "HolderA": obj({"req-e": ref("StrEnum"), "optE": ref("StrEnum"), "int.e": ref("IntEnum")}, ["req-e"]),
             "HolderB": obj({"inlineEnum": {"type": "string", "enum": ["x", "y"]}, "nullEnum": {"type": ["string", "null"], "enum": ["p", "q", None]}, "const-s": {"const": "fixed"}, "constI": {"const": 7}}, ["const-s"]),
+            "HolderF": obj({"zero": {"const": 0}, "empty-s": {"const": ""}, "zeroF": {"const": 0.0}, "no": {"const": False}, "opt-null-zero": {"oneOf": [{"const": 0}, {"type": "null"}]}}, ["zero", "empty-s"], additionalProperties=False),
             "Type": {"type": "string", "enum": ["t1", "t2"]},
             "Format": {"type": "integer", "enum": [1, 2]},
             "HolderE": obj({"the-type": ref("Type"), "fmt": ref("Format"), "type-list": arr(ref("Type"))}, additionalProperties=False),
@@ -133,6 +134,9 @@ def model_skeletons() -> dict[str, dict]:
             "TwoParents": {"allOf": [ref("Base"), ref("Other")]},
             "Other": obj({"other-id": STR, "baseOpt": STR}, ["other-id", "baseOpt"]),
             "InlineOnly": {"allOf": [obj({"in-a": INT}, ["in-a"]), obj({"inB": STR})]},
+            "ReqOnly": {"allOf": [obj({"ro-a": INT, "roB": STR}), {"required": ["ro-a"]}]},
+            "ReqOfParent": {"allOf": [ref("Base"), {"required": ["baseOpt"]}]},
+            "OwnProps": {"allOf": [ref("Other")], "properties": {"own-p": INT, "ownQ": STR}, "required": ["ownQ"]},
             "EnumNarrow": {"allOf": [obj({"color": STR}), obj({"color": {"type": "string", "enum": ["red", "green"]}})]},
         }
     )
